@@ -86,9 +86,9 @@ def sources(tier, seed, ctx):
             for shift in (None, 0, 1, 4):
                 srcs.append({'fn': 'sum2-alias', 'la': la, 'big': big, 'shift': shift,
                              'host': {'seed': rng.randrange(10**6), 'ni': 3, 'ng': 4} if la == 2 else None})
-    for n in ([1, 2, 3, 5, 7, 9, 16, 31, 33, 47, 70] if tier == 'quick' else list(range(1, 71))):
-        k, sp = bs()
-        srcs.append({'fn': 'add_sum_pow2_m1', 'n': n, 'basis': k, 'spelled': sp, 'big': bool(n % 2), 'host': None})
+    for n in ([1, 2, 3, 4, 5, 7, 9, 10, 16, 18, 31, 33, 34, 47, 64, 70] if tier == 'quick' else list(range(1, 71))):
+        for k in ('XAIG', 'AIG'):     # both bases for every operand count (the trailing 1-2 bits take their own path)
+            srcs.append({'fn': 'add_sum_pow2_m1', 'n': n, 'basis': k, 'spelled': rng.choice(SPELL[k]), 'big': bool(n % 2), 'host': None})
     ctx['gen_note'] = f'{len(srcs)} generator calls'
     return srcs
 
